@@ -10,7 +10,7 @@ import z3
 from harness.common import *
 from harness.decoders import decode_entry_items, struct_lit
 
-NAMES = ['alpha', 'beta', 'gamma_Ö']
+NAMES = ['alphaBeta', 'MAX_lights2', 'gamma_Ö']      # mixed case, digits, non-ASCII: the key is the declared name, character for character
 TYPES = ['bool', 'i32', 'u32', 'f32']
 
 
